@@ -4683,6 +4683,67 @@ for _fn in ("hash_based", "hash_arr", "lookupdb"):
             OPS[_f.__name__] = Op(_f.__name__, _f, "hash_based")
 
 
+# bystanders: the simulated caller has ANOTHER figure open (created after the Axes it passes), which is pyplot's current figure; a call that
+# is given an Axes must leave every other figure alone.  The template compares the bystander's fingerprint before and after by itself.
+def _g_bystander(H, fn, label):
+    import matplotlib.pyplot as plt
+
+    from sim.canon import canon, figure_fingerprint
+
+    fig, ax = plt.subplots()
+    if fn == "seqlogos_vj":
+        fig, axes = plt.subplots(ncols=3)
+    other, oax = plt.subplots()  # now the current figure
+    oax.plot([0, 1, 2], [2, 1, 0], label="bystander")
+    before = canon(figure_fingerprint(other))
+    kw = {"label": "sample A"} if label else {}
+    if fn == "rankfrequency":
+        pp.rankfrequency(H["counts_arr"], ax=ax, **kw)
+    elif fn == "density_scatter":
+        pp.density_scatter(H["xy_points"][0], H["xy_points"][1], ax=ax, cbar=bool(label), bins=5, **kw)
+    elif fn == "seqlogos":
+        pp.seqlogos(H["seqs_eqlen"], ax=ax)
+    elif fn == "seqlogos_vj":
+        pp.seqlogos_vj(H["df_vj"], "cdr3", "v", "j", axes=axes)
+    elif fn == "label_axes":
+        pp.label_axes(fig)
+    else:
+        (l1,) = ax.plot([0, 1], [0, 1], label="a")
+        (l2,) = ax.plot([0, 1], [1, 0], label="b")
+        ax.legend([(l1, l2)], ["pair"], handler_map={tuple: pp.HandlerTupleOffset()})
+        fig.canvas.draw()
+    after = canon(figure_fingerprint(other))
+    return ["__bystander__", "" if before == after else "another open figure (pyplot's current one) changed while %s drew on the Axes it was given" % fn, fig]
+
+
+grid("rankfreq", "g_bystander", _g_bystander,
+     dict(fn=[(x, x) for x in ("rankfrequency", "density_scatter", "seqlogos", "seqlogos_vj", "label_axes", "legend_handler")], label=[("plain", False), ("label", True)]),
+     rand=True, slow=True)
+
+
+# bin edges the caller owns and that are not ascending (np.histogram rejects them): a call that raises must still leave them alone
+@heap
+def bins_unsorted():
+    return np.array([4, 6, 0, 1, 2, 3])
+
+
+def _g_bins_unsorted(H, fn, bins):
+    b = {"arr": H["bins_unsorted"], "list": [4, 6, 0, 1, 2, 3], "desc": H["bins_unsorted"][::-1]}[bins]
+    if fn == "pcDelta":
+        return prs.pcDelta(H["seqs_list"], bins=b)
+    if fn == "two":
+        return prs.pcDelta(H["seqs_list"], H["seqs_list2"], bins=b)
+    if fn == "grouped":
+        return prs.pcDelta_grouped(H["df_cluster"], "epitope", "cdr3b", bins=b)
+    if fn == "cross":
+        return prs.pcDelta_grouped_cross(H["df_cluster"], "donor", "cdr3b", condensed=True, bins=b)
+    return prs.pcDelta(H["df_tcr"], bins=b)
+
+
+grid("pcDelta", "g_bins_unsorted", _g_bins_unsorted,
+     dict(fn=[(x, x) for x in ("pcDelta", "two", "grouped", "cross", "table")], bins=[("arr", "arr"), ("list", "list"), ("desc", "desc")]))
+
+
 # =============================================================================================
 # random-argument templates: the ARGUMENTS come from a seeded generator A (one fixed value per 'base~<n>' name), drawn from
 # small spaces on purpose, so that two templates of one base often share part of what a careless cache key would look at - the
